@@ -437,7 +437,9 @@ def run_check(pid, tier="quick", seed=0, workers=None, budget=None, batches=None
     # modules whose subject needs a very heavy import (tiled: dask, pandas, pyarrow) run fewer workers: sixteen
     # concurrent imports contend on the file system for longer than the whole search takes
     workers = min(workers, getattr(mod, "MAX_WORKERS", {}).get(tier, workers)) if hasattr(mod, "MAX_WORKERS") else workers
-    case_timeout = cfg.get("case_timeout", 60.0)
+    # wall-clock cap for one generator step (a dry run plus one case: milliseconds on an idle machine; the margin is
+    # for a machine that is heavily loaded by other work)
+    case_timeout = cfg.get("case_timeout", 240.0)
     known = load_known()
     t0 = _perf()
     agg = {
